@@ -27,6 +27,7 @@ DOC = {
         "C06-R2": "damped-oscillation and PFID: label list, each kernel and the complex split use the same blocked layout (real/cos columns 0..n-1, imag/sin columns n..2n-1)",
         "C06-R3": "in all finalize_data / retrieve_* functions clp, matrix and spectra variables are read with .sel(<label list>), never positionally",
         "C06-R6": "decay: the closed-form (sequential) A-matrix and rate order, which read the chain off the *declaration* order of the compartments, are used only when is_sequential proves that compartment i is fed by compartment i-1 for every i >= 1 and all population starts in compartment 0; a_matrix and rates are selected by the same guard (shared with C04-R2)",
+        "C06-R7": "decay: compartments, initial concentration (restricted by a membership mask over the declared compartments, never by positions in the filtered list), K-matrix fold, rates, A-matrix, returned clp labels and reported matrices all use the one order of get_compartments(dataset_model) (shared with C04-R3)",
         "C06-R5": "label lists are merged first-seen: left + [c for c in right if c not in left]; aligned label lists likewise",
     },
     "declined": ["permutation invariance of fitted numbers (values)"],
@@ -312,4 +313,10 @@ def r6(ctx) -> None:
     c04.r2(ctx, rule="C06-R6")
 
 
-check.groups = [r1, r2, r3, r5, r6]
+def r7(ctx) -> None:
+    from glint.rules import c04
+
+    c04.r3(ctx, rule="C06-R7")
+
+
+check.groups = [r1, r2, r3, r5, r6, r7]
